@@ -68,6 +68,8 @@ func init() {
 	Plans["C18"] = planC18
 	Plans["C05"] = planC05
 	Plans["C12"] = planC12
+	Plans["C06"] = planC06
+	Plans["C07"] = planC07
 }
 
 // Alphabets for S(L,Σ) (DESIGN 1.8) and token sets for token-mode sources.
@@ -349,9 +351,15 @@ func planC18(tier string, seed int64) (*Plan, error) {
 }
 
 // convertFamilies builds the shared input families for whole-Convert/Parse harnesses.
+// lightFamilies selects smaller alphabets/token lengths in the quick tier for harnesses that run
+// several conversions per path.
+var lightFamilies = false
+
 func convertFamilies(entry string, tier string, seed int64, cfgsS2, cfgsS3, cfgsDeep []string, nwin int, extra ...interface{}) ([]interp.Job, map[string]interface{}, error) {
 	var jobs []interp.Job
 	thorough := tier == "thorough"
+	light := lightFamilies && !thorough
+	lightFamilies = false
 	for _, c := range cfgsS2 {
 		for n := 0; n <= 2; n++ {
 			jobs = append(jobs, job(entry, append([]interface{}{"cfg", c, "n", n}, extra...)...))
@@ -364,11 +372,17 @@ func convertFamilies(entry string, tier string, seed int64, cfgsS2, cfgsS3, cfgs
 	if thorough {
 		la = 6
 	}
+	if light {
+		la = 3
+	}
 	anames := []string{"blocks", "inline", "fences", "entity", "lists"}
 	jobs = append(jobs, alphaJobs(entry, anames, la, cfgsDeep, extra...)...)
 	if thorough {
 		jobs = append(jobs, tokenJobs(entry, []string{"containers"}, 7, cfgsDeep, extra...)...)
 		jobs = append(jobs, tokenJobs(entry, []string{"inlines", "blocks2"}, 5, cfgsDeep, extra...)...)
+	} else if light {
+		jobs = append(jobs, tokenJobs(entry, []string{"contain5"}, 4, cfgsDeep[len(cfgsDeep)-1:], extra...)...)
+		jobs = append(jobs, tokenJobs(entry, []string{"inlines9", "blocks2"}, 3, cfgsDeep[len(cfgsDeep)-1:], extra...)...)
 	} else {
 		jobs = append(jobs, tokenJobs(entry, []string{"contain5"}, 5, cfgsDeep, extra...)...)
 		jobs = append(jobs, tokenJobs(entry, []string{"inlines9", "blocks2"}, 4, cfgsDeep[:1], extra...)...)
@@ -383,7 +397,7 @@ func convertFamilies(entry string, tier string, seed int64, cfgsS2, cfgsS3, cfgs
 		"S(2)":          "every byte string of length 0..2 (256 values per byte) x " + fmt.Sprint(cfgsS2),
 		"S(3)":          "every byte string of length 3 x " + fmt.Sprint(cfgsS3),
 		"S(L,alphabet)": fmt.Sprintf("every string of length %d over each alphabet %v x %v", la, alphabets, cfgsDeep),
-		"tokens":        fmt.Sprintf("token sequences (quick: 5 of contain5, 4 of inlines9/blocks2; thorough: 7 of containers, 5 of inlines/blocks2): %v", tokenSets),
+		"tokens":        fmt.Sprintf("token sequences (quick: 5 of contain5, 4 of inlines9/blocks2 - or 4 and 3 for the multi-conversion harnesses C06/C07/C09/C10; thorough: 7 of containers, 5 of inlines/blocks2): %v", tokenSets),
 		"templates":     fmt.Sprintf("%d seed templates with a 2-byte fully symbolic window x %v", len(coreTemplates), cfgsDeep[len(cfgsDeep)-1:]),
 		"W(C,1)":        fmt.Sprintf("%d seeded (corpus document <=160 bytes, offset) pairs with one fully symbolic byte (VERIF_SEED=%d) x %v", nwin, seed, cfgsDeep),
 		"outside":       "longer free-form inputs, wider windows, user extensions",
@@ -453,5 +467,94 @@ func planC12(tier string, seed int64) (*Plan, error) {
 	p.Bounds = b
 	p.Assumptions = []string{"the write barrier is the interpreter's: every Store, copy and in-place append targeting a cell of the source buffer (or of the 8 sentinel bytes of spare capacity behind it) is reported, whether or not it changes the byte; a real PROT_READ page fault is not produced"}
 	p.Rule = "source buffer and its spare capacity under a read-only write barrier during Convert and Parse+Render"
+	return p, nil
+}
+
+var stateProbes = []string{
+	"[a]: /u \"t\"\n\n[a] [b]\n",
+	"# a\n\n# a\n",
+	"x[^1]\n\n[^1]: f\n",
+	"\"a\" 'b'\n",
+	"| a | b |\n|:--|--:|\n| 1 | 2 |\n",
+	"```go\nx\n```\n",
+}
+
+func planC06(tier string, seed int64) (*Plan, error) {
+	p := &Plan{MustReach: []string{"done"}}
+	core, gfm, all := cfg("core", "", ""), cfg("gfm", "", "xhtml"), cfg(allExt, "autoid,attr", "")
+	cfgs := []string{core, gfm, cfg("footnote,typographer", "autoid", ""), all}
+	s3 := []string{}
+	nwin := 120
+	if tier == "thorough" {
+		s3 = []string{core, all}
+		nwin = 2000
+	}
+	var jobs []interp.Job
+	for h := 0; h < 7; h++ {
+		// each history document is paired with a slice of the families; all of them see S(2)
+		for _, c := range cfgs {
+			for n := 0; n <= 2; n++ {
+				if (h+n)%3 == 0 || tier == "thorough" {
+					jobs = append(jobs, job("H_c06_pure", "cfg", c, "n", n, "hist", h))
+				}
+			}
+		}
+	}
+	lightFamilies = true
+	fam, b, err := convertFamilies("H_c06_pure", tier, seed, nil, s3, []string{gfm, all}, nwin, "hist", int(seed%7))
+	if err != nil {
+		return nil, err
+	}
+	jobs = append(jobs, fam...)
+	// symbolic history, concrete state-sensitive probe
+	an := 2
+	for i, pr := range stateProbes {
+		c := all
+		if i%2 == 1 {
+			c = gfm
+		}
+		for n := 1; n <= an; n++ {
+			jobs = append(jobs, job("H_c06_pure", "cfg", c, "symhist", 1, "an", n, "probe", pr))
+		}
+		jobs = append(jobs, job("H_c06_pure", "cfg", c, "symhist", 1, "an", 3, "alpha", "[]:a\n#\"^", "probe", pr))
+	}
+	// aligned tables, rendered twice
+	jobs = append(jobs, job("H_c06_pure", "cfg", gfm, "n", 5, "alpha", "a|-:\n", "hist", 4))
+	p.Jobs = jobs
+	b["S(2)"] = "probe document B: every byte string of length 0..2 x " + fmt.Sprint(cfgs) + " x 7 state-rich history documents A (link references, duplicate headings, footnotes, quotes, aligned table, fenced info, definition list)"
+	b["symbolic-history"] = fmt.Sprintf("history document A: every byte string of length 1..2 and length 3 over {[,],:,a,LF,#,\",^} x %d state-sensitive probe documents B", len(stateProbes))
+	b["tables"] = "S(5,{a,|,-,:,LF}) with GFM, same tree rendered twice"
+	p.Bounds = b
+	p.Assumptions = []string{"histories: o1=conv(B); conv(A); o2=conv(B) on one instance, o3 on a fresh instance, o4=Render(Parse(B)), o5=Render of the same tree; the shared instance and all goldmark package globals are under a write barrier during these calls, so no state can outlive a conversion on the explored inputs (this is what extends two-document histories to histories of any length)"}
+	p.Rule = "relational assertions over five outputs per path plus the frozen-state monitor"
+	return p, nil
+}
+
+func planC07(tier string, seed int64) (*Plan, error) {
+	p := &Plan{MustReach: []string{"done"}, Level: "other"}
+	var cfgs []string
+	for _, e := range extSets {
+		cfgs = append(cfgs, cfg(e, "", ""))
+	}
+	all := cfg(allExt, "autoid,attr", "unsafe,xhtml,hardwraps")
+	cfgs = append(cfgs, all)
+	s3 := []string{}
+	nwin := 100
+	if tier == "thorough" {
+		s3 = []string{cfg("core", "", ""), all}
+		nwin = 1500
+	}
+	lightFamilies = true
+	jobs, b, err := convertFamilies("H_c07_shared", tier, seed, cfgs, s3, []string{cfg("gfm", "", ""), all}, nwin)
+	if err != nil {
+		return nil, err
+	}
+	p.Jobs = jobs
+	p.Bounds = b
+	p.Assumptions = []string{
+		"SUFFICIENT CONDITION, not schedule exploration: no goroutine interleaving is executed and no race-detector verdict is produced. Decided for every explored input: (a) after first use a Convert/Parse/Render call stores nothing into cells reachable from the shared instance or from goldmark's package globals; (b) during first use every such store lies inside the dynamic extent of (*sync.Once).Do. (a)+(b) leave no unsynchronised conflicting access, so every schedule is race-free and each call returns what it returns alone.",
+		"sync.Once, sync.Pool (inside regexp and fmt) and bufio are trusted to meet their documented contracts; loads of Once-initialised cells are not tracked; rendering the same tree from two goroutines is outside",
+	}
+	p.Rule = "fresh instance per path, frozen together with all goldmark globals before its first use"
 	return p, nil
 }
